@@ -1275,3 +1275,39 @@ def rule_ttl_applied(ctx, R):
         R.finding(b.fn, "ok-return:ttl-not-applied",
                   "the record loader can return successfully (line %d) on a path that neither applied the record's TTL nor found it to be None: that value type is loaded as a persistent key although the dump carries its deadline" % b.bb_line(e), b.loc(e),
                   ["bb%d line %d" % (x, b.bb_line(x)) for x in ex.witness(b, e)][-8:])
+
+
+# ---- R-RDB-READEXACT ------------------------------------------------------------------------------
+def rule_read_exact(ctx, R):
+    """end of file is an error for the loader, never a value: the reader's primitives fill their
+    buffers with read_exact (a short read is Err(UnexpectedEof)).  A plain `Read::read` reports end
+    of file as Ok(0); where its count is not looked at, a truncated dump yields zero bytes -- opcode
+    0, length 0 -- and the record loop never ends."""
+    n = 0
+    for fn, b in sorted(ctx.prog.bodies.items()):
+        if not fn.startswith("storage::rdb::RdbReader") or "::tests::" in fn:
+            continue
+        for i, t in b.calls():
+            f = t["f"] or ""
+            if b.bbs[i]["cleanup"] or not re.search(r" as std::io::Read>::(read|read_exact|read_to_end|read_buf|read_vectored)$", f):
+                continue
+            n += 1
+            kind = f.rsplit("::", 1)[-1]
+            if kind == "read_exact":
+                continue
+            # the count is compared somewhere after the call?
+            looked = False
+            for x in cfg.fwd(b, [i]):
+                for st in b.bbs[x]["s"]:
+                    if st["k"] == "=" and st["r"]["k"] == "bin" and st["r"].get("op") in ("Eq", "Ne", "Lt", "Le", "Gt", "Ge"):
+                        for o in (st["r"]["a"], st["r"]["b"]):
+                            if not op_is_const(o) and any(r[0] == "call" and r[2] == i for r in prov.operand_origins(b, o, deep=True).roots):
+                                looked = True
+                tt = b.bbs[x]["t"]
+                if tt["k"] == "switch" and not op_is_const(tt["d"]) and any(r[0] == "call" and r[2] == i for r in prov.operand_origins(b, tt["d"], deep=True).roots) and tt.get("dty") not in ("isize",):
+                    looked = True
+            R.inst(fn, "read-primitive:%s" % kind, {"function": fn, "at": b.loc(i), "count_examined": looked})
+            if not looked and kind == "read":
+                R.finding(fn, "read-primitive:short-read-not-an-error",
+                          "%s fills its buffer with Read::read (line %d) and never looks at the count: at end of file it succeeds with zero bytes, so a dump truncated where this primitive reads next is loaded as an endless run of empty records (the server hangs at start-up)" % (fn.split("::")[-1], b.bb_line(i)), b.loc(i))
+    R.floor("reader_io_calls", n)
